@@ -62,4 +62,149 @@ example : Mon.capsTable exCfg true =
   ["PIPELINING".b, "8BITMIME".b, "ENHANCEDSTATUSCODES".b, "CHUNKING".b, "AUTH PLAIN".b, "SMTPUTF8".b, "REQUIRETLS".b,
    "BINARYMIME".b, "DSN".b, "SIZE 77".b, "LIMITS RCPTMAX=3".b, "RRVS".b] := by decide +kernel
 
+/-! ### advertised ⇔ honoured -/
+
+/-- the keyword of a capability line: up to the first space -/
+def keyword (l : Bytes) : Bytes := l.takeWhile (· != 32)
+
+theorem keyword_lit (k rest : Bytes) (hk : k.all (· != 32) = true) : keyword (k ++ 32 :: rest) = k := by
+  unfold keyword
+  rw [List.takeWhile_append_of_pos (by simpa using hk)]
+  simp
+
+theorem keyword_plain (k : Bytes) (hk : k.all (· != 32) = true) : keyword k = k := by
+  unfold keyword
+  induction k with
+  | nil => rfl
+  | cons a t ih =>
+    simp only [List.all_cons, Bool.and_eq_true] at hk
+    simp only [List.takeWhile_cons, hk.1, if_true]
+    rw [ih hk.2]
+
+theorem ite_map {α β} (c : Bool) (x : α) (f : α → β) :
+    (if c then [x] else []).map f = if c then [f x] else [] := by cases c <;> rfl
+
+/-- **the keywords of the capability list**, in order -/
+theorem caps_keywords (s : S) : (caps s).map keyword =
+    ["PIPELINING".b, "8BITMIME".b, "ENHANCEDSTATUSCODES".b, "CHUNKING".b] ++
+    (if s.cfg.tlsAvail && !s.c.tls then ["STARTTLS".b] else []) ++
+    (if authAllowed s && s.cfg.authSess && !s.cfg.mechs.isEmpty then ["AUTH".b] else []) ++
+    (if s.cfg.utf8 then ["SMTPUTF8".b] else []) ++
+    (if s.c.tls && s.cfg.reqtls then ["REQUIRETLS".b] else []) ++
+    (if s.cfg.binmime then ["BINARYMIME".b] else []) ++
+    (if s.cfg.dsn then ["DSN".b] else []) ++
+    ["SIZE".b] ++
+    (if s.cfg.maxRcpt > 0 then ["LIMITS".b] else []) ++
+    (if s.cfg.rrvs then ["RRVS".b] else []) := by
+  have k1 : keyword "PIPELINING".b = "PIPELINING".b := keyword_plain _ (by decide +kernel)
+  have k2 : keyword "8BITMIME".b = "8BITMIME".b := keyword_plain _ (by decide +kernel)
+  have k3 : keyword "ENHANCEDSTATUSCODES".b = "ENHANCEDSTATUSCODES".b := keyword_plain _ (by decide +kernel)
+  have k4 : keyword "CHUNKING".b = "CHUNKING".b := keyword_plain _ (by decide +kernel)
+  have k5 : keyword "STARTTLS".b = "STARTTLS".b := keyword_plain _ (by decide +kernel)
+  have k6 : keyword "SMTPUTF8".b = "SMTPUTF8".b := keyword_plain _ (by decide +kernel)
+  have k7 : keyword "REQUIRETLS".b = "REQUIRETLS".b := keyword_plain _ (by decide +kernel)
+  have k8 : keyword "BINARYMIME".b = "BINARYMIME".b := keyword_plain _ (by decide +kernel)
+  have k9 : keyword "DSN".b = "DSN".b := keyword_plain _ (by decide +kernel)
+  have k10 : keyword "RRVS".b = "RRVS".b := keyword_plain _ (by decide +kernel)
+  have k11 : keyword "SIZE".b = "SIZE".b := keyword_plain _ (by decide +kernel)
+  have kS : ∀ x : Bytes, keyword ("SIZE ".b ++ x) = "SIZE".b := by
+    intro x
+    have : "SIZE ".b ++ x = "SIZE".b ++ 32 :: x := by
+      have : "SIZE ".b = "SIZE".b ++ [32] := by decide +kernel
+      rw [this]; simp
+    rw [this]; exact keyword_lit _ _ (by decide +kernel)
+  have kL : ∀ x : Bytes, keyword ("LIMITS RCPTMAX=".b ++ x) = "LIMITS".b := by
+    intro x
+    have : "LIMITS RCPTMAX=".b ++ x = "LIMITS".b ++ 32 :: ("RCPTMAX=".b ++ x) := by
+      have : "LIMITS RCPTMAX=".b = "LIMITS".b ++ 32 :: "RCPTMAX=".b := by decide +kernel
+      rw [this]; simp
+    rw [this]; exact keyword_lit _ _ (by decide +kernel)
+  have kA : s.cfg.mechs.isEmpty = false → keyword ("AUTH".b ++ s.cfg.mechs.flatMap (fun m => SP :: m)) = "AUTH".b := by
+    intro h
+    cases hm : s.cfg.mechs with
+    | nil => simp [hm] at h
+    | cons m ms =>
+      simp only [List.flatMap_cons, SP, List.cons_append]
+      exact keyword_lit _ _ (by decide +kernel)
+  unfold caps
+  simp only [List.map_append, List.map_cons, List.map_nil, k1, k2, k3, k4]
+  congr 1
+  congr 1
+  · congr 1
+    · congr 1
+      · congr 1
+        · congr 1
+          · congr 1
+            · congr 1
+              · split <;> simp [k5]
+              · split
+                · rename_i h
+                  simp only [Bool.and_eq_true, Bool.not_eq_true'] at h
+                  simp [kA h.2]
+                · rfl
+            · split <;> simp [k6]
+          · split <;> simp [k7]
+        · split <;> simp [k8]
+      · split <;> simp [k9]
+    · split <;> simp [kS, k11]
+  · split <;> simp [kL]
+  · split <;> simp [k10]
+
+theorem mem_ite_single {α} (c : Bool) (x y : α) : y ∈ (if c then [x] else []) ↔ (c = true ∧ y = x) := by
+  cases c <;> simp
+
+/-- **C12_starttls_honoured.**  STARTTLS is in the capability list exactly when the command will be accepted: offered ⇒ answered
+    220; not offered ⇒ refused with 502 and nothing else happens. -/
+theorem C12_starttls_honoured (s : S) :
+    ("STARTTLS".b ∈ (caps s).map keyword ↔ (s.cfg.tlsAvail && !s.c.tls) = true) ∧
+    ((s.cfg.tlsAvail && !s.c.tls) = false →
+      handleStartTLS s = reply s 502 ⟨5, 5, 1⟩ "Already running in TLS" ∨ handleStartTLS s = reply s 502 ⟨5, 5, 1⟩ "TLS not supported") := by
+  constructor
+  · rw [caps_keywords]
+    simp only [List.mem_append, List.mem_cons, List.not_mem_nil, or_false, mem_ite_single, String.b_inj]
+    simp
+    intro _ h; exact absurd h (by decide +kernel)
+  · intro h
+    unfold handleStartTLS
+    cases ht : s.c.tls with
+    | true => left; simp
+    | false =>
+      right
+      have : s.cfg.tlsAvail = false := by simpa [ht] using h
+      simp [this]
+
+/-- **C12_auth_honoured.**  AUTH is in the capability list exactly when authentication is possible (TLS or AllowInsecureAuth, a
+    backend with authentication, a mechanism); on a connection where it is not allowed the command is refused with 523. -/
+theorem C12_auth_honoured (s : S) :
+    ("AUTH".b ∈ (caps s).map keyword ↔ (authAllowed s && s.cfg.authSess && !s.cfg.mechs.isEmpty) = true) ∧
+    (authAllowed s = false → s.c.helo.isEmpty = false → s.c.didAuth = false → ∀ arg m0 more, Text.fields arg = m0 :: more →
+      handleAuth s arg = (reply s 523 ⟨5, 7, 10⟩ "TLS is required", false)) := by
+  constructor
+  · rw [caps_keywords]
+    simp only [List.mem_append, List.mem_cons, List.not_mem_nil, or_false, mem_ite_single, String.b_inj]
+    simp
+    intro _ h; exact absurd h (by decide +kernel)
+  · intro ha hh hd arg m0 more hf
+    unfold handleAuth
+    simp [hh, hd, hf, ha]
+
+/-- **C12_keyword_iff_enabled.**  Each optional extension is in the capability list exactly when the configuration (and, for
+    REQUIRETLS, the TLS state) enables it — together with `C12_disabled_504_*`: not listed (disabled) ⇒ its parameters are refused. -/
+theorem C12_keyword_iff_enabled (s : S) :
+    ("SMTPUTF8".b ∈ (caps s).map keyword ↔ s.cfg.utf8 = true) ∧
+    ("REQUIRETLS".b ∈ (caps s).map keyword ↔ (s.c.tls && s.cfg.reqtls) = true) ∧
+    ("BINARYMIME".b ∈ (caps s).map keyword ↔ s.cfg.binmime = true) ∧
+    ("DSN".b ∈ (caps s).map keyword ↔ s.cfg.dsn = true) ∧
+    ("RRVS".b ∈ (caps s).map keyword ↔ s.cfg.rrvs = true) ∧
+    ("LIMITS".b ∈ (caps s).map keyword ↔ s.cfg.maxRcpt > 0) := by
+  rw [caps_keywords]
+  simp only [List.mem_append, List.mem_cons, List.not_mem_nil, or_false, mem_ite_single, String.b_inj]
+  refine ⟨?_, ?_, ?_, ?_, ?_, ?_⟩
+  · simp; intro _ h; exact absurd h (by decide +kernel)
+  · simp; intro _ h; exact absurd h (by decide +kernel)
+  · simp; intro _ h; exact absurd h (by decide +kernel)
+  · simp; intro _ h; exact absurd h (by decide +kernel)
+  · simp; intro _ h; exact absurd h (by decide +kernel)
+  · simp
+
 end SmtpV.Props.C12
